@@ -106,6 +106,20 @@ pub fn c19(a: &Args) {
                 out.query("tocnf", "", &fmt_cnf(&cnf));
                 out.query("cnfok", "", "true");
                 if r2.chance(0.01) { out.sample(format!("{} n={} -> {}", file.origin, file.n, fmt_cnf(&cnf))); }
+                // export, edit the same object, export again: the second export is the CNF of the edited model
+                if r2.chance(0.25) {
+                    let mut d = d;
+                    let n = file.n as i32;
+                    let f = { let v = 1 + r2.below(n as usize + 1) as i32; if r2.chance(0.5) { v } else { -v } };
+                    let want = if f.unsigned_abs() <= tt.n { crate::edit_props::and_clause(tt, &[f]) } else { crate::edit_props::and_clause(&crate::edit_props::extend_tt(tt, f.unsigned_abs()), &[f]) };
+                    if want.count() > 0 && want.n >= 2 && crate::edit_props::apply(&mut d, vec![(vec![f], ddnnife::parser::intermediate_representation::ClauseApplication::Add)]).is_ok() {
+                        out.count("export_edit_export", 1);
+                        match guarded(|| { let c = Cnf::from(&d); let t = c.to_string(); (c, t) }) {
+                            Err(e) => out.fail("to_cnf-panic", &file.text(), &format!("Cnf::from ; add unit clause {f} ; Cnf::from"), &format!("panic: {e}"), "a CNF"),
+                            Ok((cnf2, text2)) => if let Err(e) = judge_cnf(&cnf2, &text2, &want) { out.fail("cnf-export-after-edit", &file.text(), &format!("Cnf::from ; add unit clause {f} ; Cnf::from"), &format!("{e}; cnf = {}", fmt_cnf(&cnf2)), "the export of the edited model"); },
+                        }
+                    }
+                }
             }
         }
     };
